@@ -124,6 +124,12 @@ def buildSM (c : Case) : Verdict :=
           match mon with
           | some cl => .propFail tag cl
           | none =>
+            -- the client may refuse a HelloRetryRequest (acceptance checks are C17's) or time out before
+            -- answering it: then only the first hello is predicted, and Raw must still be that hello
+            let aborted := srv != "plain" && w2.isNone && cerr != "ok"
+            if aborted then
+              if o.wire1 == w1 && rawafter == w1 then .ok (tag ++ ",hrr-not-answered") else .diff tag "wire1 or raw-after differs (HelloRetryRequest not answered)"
+            else
             if o.wire1 == w1 && o.wire2 == w2 && (w1.isNone || some o.final.raw == rawafter) then .ok tag
             else
               let what := if o.wire1 != w1 then "wire1" else if o.wire2 != w2 then "wire2" else "raw-after"
